@@ -219,7 +219,8 @@ Definition p_transform (fx : bool) (c : list nat) : list prim :=
 Definition p_srf_call (fx : bool) (c : list nat) : list prim :=
   set_pos (dg c 1) (nz (dg c 2)) (dg c 7) del_fields
   ++ [New 13 1 [12]; Alias 13 13]
-  ++ when (nz (dg c 6)) [New 14 2 [1]; Write 13 3 [14]]
+  ++ when (nz (dg c 6)) ([New 14 2 [1]] ++ (if dg c 0 =? 1 then [Raise] else [Write 13 3 [14]]))
+      (* an array of point volumes cannot be reshaped to a vector field: ValueError *)
   ++ post_field fx 13 (store_name (dg c 4) A_FIELD A_A) (nz (dg c 3))
   ++ [Ret 13].
 
@@ -393,10 +394,11 @@ Definition total_cfgs : Z := fold_right Z.add 0%Z (map cfg_count entries).
 Lemma entries_complete e : In e entries.
 Proof. destruct e; simpl; tauto. Qed.
 
-Lemma safe_all_true : safe_all = true.
+Lemma safe_all_true : forallb safe_entry entries = true.
 Proof. vm_compute. reflexivity. Qed.
 
-Lemma wf_all_true : wf_all = true.
+Lemma wf_all_true :
+  forallb (fun e => forallb (fun c => wf_entry true e c && wf_entry false e c) (all_cfgs (dims e))) entries = true.
 Proof. vm_compute. reflexivity. Qed.
 
 Lemma total_cfgs_value : total_cfgs = 26472%Z.
@@ -408,19 +410,24 @@ Proof.
   rewrite Nat2Z.inj_mul, IH. reflexivity.
 Qed.
 
+Lemma forallb_In {A} (f : A -> bool) l x : forallb f l = true -> In x l -> f x = true.
+Proof. intros H. apply (proj1 (forallb_forall f l) H). Qed.
+
 Lemma program_safe e c : valid_cfg (dims e) c -> safe0 (program e c) = true.
 Proof.
-  intros Hc. pose proof safe_all_true as H. unfold safe_all in H.
-  rewrite forallb_forall in H. specialize (H e (entries_complete e)).
-  unfold safe_entry in H. rewrite forallb_forall in H. apply H. apply all_cfgs_complete; auto.
+  intros Hc.
+  exact (forallb_In (fun c => safe0 (program e c)) (all_cfgs (dims e)) c
+           (forallb_In safe_entry entries e safe_all_true (entries_complete e))
+           (all_cfgs_complete _ _ Hc)).
 Qed.
 
-Lemma program_wf e c : valid_cfg (dims e) c -> wf_entry true e c = true.
+Lemma program_wf e c : valid_cfg (dims e) c -> wf_entry true e c = true /\ wf_entry false e c = true.
 Proof.
-  intros Hc. pose proof wf_all_true as H. unfold wf_all in H.
-  rewrite forallb_forall in H. specialize (H e (entries_complete e)).
-  rewrite forallb_forall in H. specialize (H c (all_cfgs_complete _ _ Hc)).
-  apply andb_true_iff in H. apply H.
+  intros Hc. apply andb_true_iff.
+  exact (forallb_In (fun c => wf_entry true e c && wf_entry false e c) (all_cfgs (dims e)) c
+           (forallb_In (fun e => forallb (fun c => wf_entry true e c && wf_entry false e c) (all_cfgs (dims e)))
+                       entries e wf_all_true (entries_complete e))
+           (all_cfgs_complete _ _ Hc)).
 Qed.
 
 (* every argument and every earlier result keeps its contents: all entry points, all configurations,
@@ -476,3 +483,8 @@ Lemma pinned_tree_changes_contents :
   nth_error (heap (run interp (old_program EVario cfg_vario_latlon) st)) 3 = Some 14
   /\ nth_error (heap (run interp (program EVario cfg_vario_latlon) st)) 3 = Some 13.
 Proof. vm_compute. split; reflexivity. Qed.
+
+Lemma configs_exist :
+  valid_cfg (dims EVario) cfg_vario_latlon /\ valid_cfg (dims EVarioAxis) cfg_axis_mask
+  /\ valid_cfg (dims EFieldCall) cfg_field_call /\ valid_cfg (dims ETransform) cfg_transform.
+Proof. unfold valid_cfg; simpl; repeat split; repeat constructor. Qed.
